@@ -311,6 +311,16 @@ func (fv *FV) resolveDyn(st *State, recv Val, m *types.Func) (target *ssa.Functi
 	if os.Getenv("GOVC_DEBUG") != "" {
 		fmt.Fprintf(os.Stderr, "resolveDyn %s in %s: %v\n", m.Name(), fv.fc.Key, res)
 	}
+	ntrue := 0
+	for _, r := range res {
+		if r {
+			ntrue++
+		}
+	}
+	if ntrue > 1 {
+		// contradictory path condition: this path is infeasible
+		panic(infeasiblePath{})
+	}
 	for i, c := range cands {
 		if res[i] {
 			ms := fv.prog.MethodSets.MethodSet(c)
@@ -363,3 +373,5 @@ func (fv *FV) implementorHeaps(name string) []string {
 	}
 	return out
 }
+
+type infeasiblePath struct{}
